@@ -70,6 +70,32 @@ theorem node_frame {cfg : Cfg} {s s' : St} {ph ph' : Nat → Nat → Ph} (inv : 
       · rw [h]; exact inv.out _ _ hcj
     · rw [hst _ _ hn]; exact inv.out _ _ hcj
 
+/-- the ghost phases only move forward: `pending → held t → arrived`, and the holder never changes -/
+def Mono (ph ph' : Nat → Nat → Ph) : Prop :=
+  ∀ c k, (ph c k = .arrived → ph' c k = .arrived) ∧ (∀ t, ph c k = .held t → ph' c k = .held t ∨ ph' c k = .arrived)
+
+theorem mono_refl (ph : Nat → Nat → Ph) : Mono ph ph := fun _ _ => ⟨id, fun _ h => .inl h⟩
+
+theorem mono_trans {a b c : Nat → Nat → Ph} (h1 : Mono a b) (h2 : Mono b c) : Mono a c := by
+  intro x y
+  refine ⟨fun h => (h2 x y).1 ((h1 x y).1 h), fun t h => ?_⟩
+  rcases (h1 x y).2 t h with h' | h'
+  · exact (h2 x y).2 t h'
+  · exact .inr ((h2 x y).1 h')
+
+theorem mono_arrive (ph : Nat → Nat → Ph) (c k : Nat) : Mono ph (upd2 ph c k .arrived) := by
+  intro x y
+  by_cases e : x = c ∧ y = k
+  · obtain ⟨rfl, rfl⟩ := e; rw [upd2_same]; exact ⟨fun _ => rfl, fun _ _ => .inr rfl⟩
+  · rw [upd2_ne _ _ _ _ _ _ e]; exact ⟨id, fun _ h => .inl h⟩
+
+theorem mono_hold (ph : Nat → Nat → Ph) (c k t : Nat) (h : ph c k = .pending) : Mono ph (upd2 ph c k (.held t)) := by
+  intro x y
+  by_cases e : x = c ∧ y = k
+  · obtain ⟨rfl, rfl⟩ := e; rw [h]
+    exact ⟨(fun h => by cases h), (fun _ h => by cases h)⟩
+  · rw [upd2_ne _ _ _ _ _ _ e]; exact ⟨id, fun _ h => .inl h⟩
+
 /-- assemble the invariant after a step of thread `t` that touches at most node `(c0+1, j0)` -/
 theorem inv_build {cfg : Cfg} {s s' : St} {ph ph' : Nat → Nat → Ph} (inv : Inv cfg s ph)
     (t : Nat) (p' : PC) (c0 j0 : Nat)
